@@ -96,7 +96,7 @@ def run(W, chk):
     okr = len(rf) == 1
     if okr:
         am = {o: ops for (o, ops) in flat_atoms(A.d(vfield(vfield(field_val(rf[0], "amount"), "[*]"), "amount")))}
-        okr = am == {"Store(CONFIG).create_farm_fee.amount": frozenset(["sat", "sub"]), "info.funds[*].amount": frozenset(["sat", "sub"])}
+        okr = am == {"Store(CONFIG).create_farm_fee.amount": frozenset(["sat", "sub", "sub:r"]), "info.funds[*].amount": frozenset(["sat", "sub", "sub:l"])}
     chk.expect(okr, "PROV-farm-fee", "refund", "overpayment refund to info.sender = paid - fee", "refund messages: %d / %s" % (len(rf), [show(A.d(field_val(x, "amount")))[:200] for x in rf]),
                where(rf[0]) if rf else A.entry)
     own = sends.get(("Store(FARMS).owner",), [])
@@ -111,7 +111,7 @@ def run(W, chk):
         for f, ok in ck:
             chk.expect(ok, "PROV-farm-fields", "create." + f, "%s recorded as specified" % f, "new farm %s <- %s" % (f, show(vfield(v, f))[:200]), where(e))
         er = {o: ops for (o, ops) in flat_atoms(vfield(v, "emission_rate")) if not o.startswith("Const(")}
-        chk.expect(er.get(MP + ".farm_asset.amount") == frozenset(["div_floor"]) and "div_ceil" not in ops_of(vfield(v, "emission_rate")),
+        chk.expect(er.get(MP + ".farm_asset.amount") == frozenset(["div_floor", "div:l"]) and "div_ceil" not in ops_of(vfield(v, "emission_rate")),
                    "PROV-farm-fields", "create.emission_rate", "emission_rate = amount div_floor (end - start)", "emission_rate <- %s" % {k: sorted(x) for k, x in er.items()}, where(e))
         key = e.extra.get("key", EMPTY)
         chk.expect(set(flat_atoms(key)) == set(flat_atoms(vfield(v, "identifier"))), "KEY-farm", "create", "saved under its own identifier", "key differs from identifier", where(e))
@@ -148,8 +148,8 @@ def run(W, chk):
         chk.expect(am == {"Store(FARMS).farm_asset.amount": frozenset(["add"]), "info.funds[*].amount": frozenset(["add"])}, "PROV-farm-fields", "expand.amount",
                    "budget += attached amount (checked)", "expanded budget <- %s" % {k: sorted(x) for k, x in am.items()}, where(e))
         en = {o: ops for (o, ops) in flat_atoms(vfield(v, "preliminary_end_epoch"))}
-        want = {"Store(FARMS).preliminary_end_epoch": frozenset(["add"]), "Store(FARMS).emission_rate": frozenset(["add", "div_floor"]),
-                XP + ".farm_asset.amount": frozenset(["add", "div_floor"])}
+        want = {"Store(FARMS).preliminary_end_epoch": frozenset(["add"]), "Store(FARMS).emission_rate": frozenset(["add", "div_floor", "div:r"]),
+                XP + ".farm_asset.amount": frozenset(["add", "div_floor", "div:l"])}
         chk.expect(en == want, "PROV-farm-fields", "expand.end", "end += amount div_floor emission_rate", "end epoch <- %s" % {k: sorted(x) for k, x in en.items()}, where(e))
         ov = {".".join(p) for p, f in overrides(v, "Store(FARMS)")}
         chk.expect(ov <= {"farm_asset", "farm_asset.amount", "preliminary_end_epoch"}, "PROV-farm-fields", "expand.other", "nothing else changes", "expand also changes %s" % sorted(ov), where(e))
@@ -203,8 +203,8 @@ def close_refund(chk, A, lab):
             continue
         to = exact_origins(A.d(field_val(e, "to_address")))
         am = {o: ops for (o, ops) in flat_atoms(A.d(vfield(vfield(field_val(e, "amount"), "[*]"), "amount")))}
-        good = to == {"Store(FARMS).owner"} and am == {"Store(FARMS).farm_asset.amount": frozenset(["sat", "sub"]),
-                                                       "Store(FARMS).claimed_amount": frozenset(["sat", "sub"])}
+        good = to == {"Store(FARMS).owner"} and am == {"Store(FARMS).farm_asset.amount": frozenset(["sat", "sub", "sub:l"]),
+                                                       "Store(FARMS).claimed_amount": frozenset(["sat", "sub", "sub:r"])}
         den = all_origins(A.d(vfield(vfield(field_val(e, "amount"), "[*]"), "denom")))
         good = good and den == {"Store(FARMS).farm_asset.denom"}
         chk.expect(good, "PROV-close-refund", lab, "refund(exact farm.owner, budget - claimed, farm denom)",
